@@ -20,7 +20,7 @@ def P(rule, monitors, inproc=None, cells=None, extra_assume=None, evaluations=10
     return {"rule": rule, "assumptions": COMMON_ASSUME + (extra_assume or []),
             "floors": {"evaluations": evaluations, "monitors": monitors, "cells": (cells or []) + ladder},
             "inproc": inproc or {"quick": [("relchk", 16, 8.0), ("release", 16, 2.0)], "thorough": [("relchk", 16, 3.0), ("release", 16, 1.0)]},
-            "proc": proc or {"quick": [], "thorough": []}}
+            "proc": proc or {"quick": [PL.coldstart_lane], "thorough": [PL.coldstart_lane]}}
 
 
 PLANS = {
@@ -78,7 +78,7 @@ PLANS = {
              ["c17.history", "c17.immutability", "c17.heap-conservation", "c17.alloc-determinism", "c17.concurrent", "c17.concurrent-effects", "c17.effects", "c17.log-identity", "c17.syscalls", "c17.fresh-process", "c17.stderr-silent", "c17.environment-independence"],
              inproc={"quick": [("relchk", 16, 2.0), ("release", 8, 0.5), ("tsan", 8, 0.25), ("miri", 4, None)],
                      "thorough": [("relchk", 16, 2.0), ("tsan", 16, 0.5), ("miri", 16, None)]},
-             proc={"quick": [PL.strace_lane, PL.fresh_process_lane, PL.env_lane], "thorough": [PL.strace_lane, PL.fresh_process_lane, PL.env_lane]},
+             proc={"quick": [PL.strace_lane, PL.fresh_process_lane, PL.env_lane, PL.coldstart_lane], "thorough": [PL.strace_lane, PL.fresh_process_lane, PL.env_lane, PL.coldstart_lane]},
              cells=["history:same-rule-other-data", "history:other-rule-same-data", "history:exact-repeat", "concurrent:threads=16", "concurrent:threads=2"],
              extra_assume=["'every schedule' is sampled, not enumerated: the evidence reports the number of distinct completion orders, TSan executions and Miri seeds",
                            "heap conservation is measured by a counting global allocator owned by the harness (per-thread counters); it is compiled out in the sanitizer and Miri lanes"]),
